@@ -217,7 +217,8 @@ def type_range(w, sg):
 class Gen(object):
     """random scenarios: a root class with scalar / enum fields and optional sub-objects (tree of classes)"""
 
-    def __init__(self, rnd, small=True, tree=False, hist=False):
+    def __init__(self, rnd, small=True, tree=False, hist=False, ninst=1):
+        self.ninst = ninst
         self.rnd = rnd
         self.small = small
         self.tree = tree          # allow sub-objects
@@ -323,6 +324,8 @@ class Gen(object):
             e, f2 = self.operand(depth - 1, True)
             return ["not", e], f2
         op = rnd.choice(["Add", "Add", "Sub", "Sub", "Mul", "And", "Or", "Xor", "Div", "Mod", "Sll", "Srl"])
+        if not self.small and op in ("Mul", "Div", "Mod"):
+            op = rnd.choice(["Add", "Sub", "Xor"])      # wide multipliers / dividers make the SAT problem slow, not more telling
         l, fl = self.operand(depth - 1, True)
         if op in ("Sll", "Srl"):
             r_ = ["lit", rnd.choice([0, 1, 1, 2, 3, 7, 40])]
@@ -393,27 +396,34 @@ class Gen(object):
         if not any(f["rand"] for _, f in leaves):
             leaves[0][1]["rand"] = True
         self.fill_blocks(softs)
-        ops = [{"op": "new", "var": "o", "cls": root["name"]}]
+        names = ["o"] if self.ninst == 1 else ["o%d" % i for i in range(self.ninst)]
+        ops = [{"op": "new", "var": names[0], "cls": root["name"]}]
+        created = 1
         self.fs = [(list(p), f) for p, f in leaves]
         objpaths = [()] + [p for p in self.obj_paths(sc, root["name"])]
-        for _ in range(ncalls):
+        for _ in range(ncalls * self.ninst):
+            if created < self.ninst and rnd.random() < 0.5:
+                ops.append({"op": "new", "var": names[created], "cls": root["name"]})     # instances created later, too
+                created += 1
+            v = rnd.choice(names[:created])
             if rnd.random() < 0.4:
                 p, f = rnd.choice(leaves)
                 if f["kind"] == "scalar":
                     lo, hi = type_range(f["w"], f["sg"])
-                    ops.append({"op": "set", "var": "o", "path": list(p), "value": rnd.randint(lo, hi)})
+                    ops.append({"op": "set", "var": v, "path": list(p), "value": rnd.randint(lo, hi)})
             if self.hist and rnd.random() < 0.5:
                 p, f = rnd.choice(leaves)
-                ops.append({"op": "rand_mode", "var": "o", "path": list(p), "on": rnd.random() < 0.4})
-            if self.hist and rnd.random() < 0.5:
+                ops.append({"op": "rand_mode", "var": v, "path": list(p), "on": rnd.random() < 0.4})
+            if self.hist and rnd.random() < 0.6:
                 op_ = rnd.choice(objpaths)
                 cls = self.class_at(sc, root["name"], op_)
                 blocks = all_blocks(sc, cls)
                 if blocks:
-                    ops.append({"op": "cmode", "var": "o", "path": list(op_), "block": rnd.choice(blocks)["name"],
+                    ops.append({"op": "cmode", "var": v, "path": list(op_), "block": rnd.choice(blocks)["name"],
                                 "on": rnd.random() < 0.4})
+            v2 = rnd.choice(names[:created])
             inline = [self.stmt(1, softs) for _ in range(rnd.randint(1, 2))] if rnd.random() < 0.4 else None
-            ops.append({"op": "randomize", "var": "o", "inline": inline})
+            ops.append({"op": "randomize", "var": v2, "inline": inline})
         sc["ops"] = ops
         sc["root_cls"] = root["name"]
         return sc
@@ -435,9 +445,12 @@ class Gen(object):
 
 
 def track_state(sc, upto):
-    """rand_mode / constraint_mode flags in force before op number `upto`"""
+    """rand_mode / constraint_mode flags of the object of op number `upto`, as in force before it"""
     st = {"rand_mode": {}, "cmode": {}}
+    var = sc["ops"][upto]["var"]
     for op in sc["ops"][:upto]:
+        if op.get("var") != var:
+            continue
         if op["op"] == "rand_mode":
             st["rand_mode"][tuple(op["path"])] = bool(op["on"])
         elif op["op"] == "cmode":
@@ -465,7 +478,9 @@ def case_literal(sc, opi, res, lits):
     op = sc["ops"][opi]
     before = lits.values(res["before"])
     after = lits.values(res["values"])
-    outcome = 0 if res["outcome"] == "ok" else (1 if res["outcome"] == "SolveFailure" else 2)
+    # 3 = ZeroDivisionError: a constant sub-expression divides by zero, which the specification leaves undefined
+    outcome = 0 if res["outcome"] == "ok" else (1 if res["outcome"] == "SolveFailure" else
+                                                (3 if res["outcome"] == "exc:ZeroDivisionError" else 2))
     terms = clist([term_lit(t) for t in hard_terms(res["log"])])
     nl = lambda l: clist(["%d%%nat" % x for x in l])
     pre = [h[0] for h in res["hooks"] if h[1] == "pre_randomize"]
